@@ -59,6 +59,22 @@ def r_guards(ctx, model):
         if (res[0] == "raise") != want_raise or (res[0] == "ok" and sc.lstsq is None):
             bad.append(f"complete table, resid={resid} ignore_residuals={ig_res}: {'raises' if res[0] == 'raise' else 'accepts'}"
                        f"{' without solving' if sc.lstsq is None else ''} (want {'refusal' if want_raise else 'a solve'})")
+    # sufficiency is a matter of rank, not of WHICH member of a family of equal components is supplied: tables that give a later member of each chain
+    # of the relation file (c33 for c11 = c22 = c33, c66 and c12 instead of c11 for the hexagonal c66 = (c11 - c12) / 2) are as sufficient as the customary ones.
+    # The rank of [supplied; relations] is computed here from the packaged file (exact rational arithmetic)
+    from ..fillmodel import parse_relations, relation_matrix
+    for system, cols in (("cubic", ["c33", "c23", "c66"]), ("cubic", ["c22", "c13", "c55"]), ("hexagonal", ["c12", "c66", "c13", "c33", "c44"]),
+                         ("hexagonal", ["c22", "c66", "c23", "c33", "c55"]), ("tetragonal6", ["c22", "c12", "c23", "c33", "c55", "c66"])):
+        rel = relation_matrix(parse_relations((REPO / "cij" / "data" / "constraints" / system).read_text()))
+        sel = sp.Matrix([[1 if s_ == c_ else 0 for s_ in SYMS21] for c_ in cols])
+        true_rank = sp.Matrix.vstack(sel, rel).rank()
+        if true_rank != 21:
+            raise AnalysisError(f"scenario table {cols} of {system} is not sufficient (rank {true_rank}): the scenario list is out of date with the relation files")
+        n += 1
+        sc = Scenario(system=system, columns=["V"] + cols, rank=21, resid=0, kwargs={"ignore_rank": False, "ignore_residuals": False})
+        res = run_fill(model, sc, ctx)
+        if res[0] == "raise":
+            bad.append(f"{system} table {cols} (rank 21: sufficient) is refused with {res[1]}")
     ctx.check(not bad, f"refusal decision table ({n} cells)", w,
               expected="raise Warning iff (rank < 21 and not ignore_rank) or (residual > residual_atol and not ignore_residuals)",
               found="; ".join(bad[:4]) or f"{n} cells as required",
